@@ -46,6 +46,11 @@ def gen(tier, rng, harness=None, driver=None):
     cat = [(nm, t) for nm, t, _ in catalog.all_entries(regen.enum_table(harness))]
     for kind, nm, ft in refsites.cases(cat, rng):
         lines.append("!mod.mustfail - %s" % hx(ft))
+    # (corpus files written as site lists - a named type at every type position of every cast, constant expression and instruction - are taken whole)
+    import glob, os
+    sites_files = [(os.path.basename(f), open(f).read()) for f in sorted(glob.glob(os.path.join(C.VERIF, "corpus", "ll", "*_sites.ll")))]
+    for kind, nm, ft in refsites.cases(sites_files, rng):
+        lines.append("!mod.mustfail - %s" % hx(ft))
     corp = [("corpus-%d" % i, t) for i, t in enumerate(modprops.corpus_texts())]
     for kind, nm, ft in refsites.cases(corp, rng, per_text=40 if tier == "quick" else 2000):
         lines.append("!mod.mustfail - %s" % hx(ft))
